@@ -54,11 +54,15 @@ def dagCheck (s : St) : String :=
     { id := num e.id, creator := e.creator, sp := num e.sp, op := num e.op, mid := e.mid })
   let tbl := Dag.build ps nodes
   let view : List Dag.Rec := tbl.filterMap (fun p => p.2.head?)
+  let decidedFn (i : Int) : Bool := ((s.getRound i).map (·.decided)).getD false
   let bad := s.events.filterMap (fun e =>
     match view.find? (fun r => r.e.id == num e.id) with
     | none => some s!"{e.id}:missing"
     | some r =>
       if e.round != some r.round then some s!"{e.id}:round {fmtOpt e.round} spec {r.round}" else
+      if e.lamport != some r.lamport then some s!"{e.id}:lamport {fmtOpt e.lamport} spec {r.lamport}" else
+      let rrSpec := Dag.rrFrom ps decidedFn view r (s.lastRound - r.round + 2).toNat (r.round + 1) s.lastRound
+      if e.rr != rrSpec then some s!"{e.id}:round-received {fmtOpt e.rr} spec {fmtOpt rrSpec}" else
       let w := witFlag s e
       if w != (if r.wit then "1" else "0") then some s!"{e.id}:witness {w} spec {r.wit}" else
       if !r.wit then none else
